@@ -33,11 +33,12 @@ func gen(tier string) []proto.RTItem {
 	ks := kinds()
 	// (A) all pairs of TTL bounds
 	for _, k := range ks {
+		tv := ttlVals
 		if tier != "thorough" && strings.Contains(k.target, ":") {
-			continue
+			tv = []int{0, 1, 251, 255, 256} // IPv6 in the quick tier: the boundary values only
 		}
-		for _, min := range ttlVals {
-			for _, max := range ttlVals {
+		for _, min := range tv {
+			for _, max := range tv {
 				for _, dest := range []int{3, 0} {
 					if dest == 0 && !(min >= 1 && max <= 255 && min <= max && max-min < 8) && tier != "thorough" {
 						continue // silent world only for short valid ranges in the quick tier
@@ -237,7 +238,9 @@ func check(it *proto.RTItem, r *proto.RTResult) []proto.Issue {
 			out = append(out, proto.Issue{Key: "ttl-range-exceeded", Detail: fmt.Sprintf("run %d sent %d probes for the range %d..%d", sid, len(ps), sc.MinTTL, sc.MaxTTL)})
 		} else if last != sc.MaxTTL && r.Err == nil {
 			// the sender may stop early only because the destination answered (one probe in flight allowed)
-			stopOK := sc.Dest > 0 && last >= sc.Dest && last <= max(sc.Dest, sc.MinTTL)+1
+			// (as many probes are in flight as send intervals fit into the scripted latency of the first destination answer, plus one)
+			fd := max(sc.Dest, sc.MinTTL)
+			stopOK := sc.Dest > 0 && last >= sc.Dest && last <= fd+proto.DefaultDelayUs(fd)/(sc.DelayMs*1000)+1
 			if !stopOK {
 				out = append(out, proto.Issue{Key: "ttl-range-not-covered", Detail: fmt.Sprintf("run %d probed TTLs %d..%d, requested %d..%d (destination answers from TTL %d)", sid, sc.MinTTL, last, sc.MinTTL, sc.MaxTTL, sc.Dest)})
 			}
